@@ -61,6 +61,10 @@ STRESS = [
     'start = /\\\\\'"/ ;', "start = /a\\\\/ 'b' ;", 'start = ?"\\\\" ;',
     # left recursion through a positive closure / join (the analysis recurses on nullability)
     "start = {start}+ 'y' | 'x' ;", "start = ','%{start}+ 'y' | 'x' ;", "start = a 'y' | 'x' ;\na = {start}+ ;",
+    # repetitions whose element AND separator can match the empty string (an iteration that consumes nothing must end the loop)
+    ("start = (','?)%{ 'a'? } $ ;", ['a , a', 'a a', ',', 'a ,']), ("start = (';' | ()).{ ['x'] }+ 'b' ;", ['x ; x b', 'b', 'x x b']),
+    ("start = (','?)%{ {'x'} } 'b' ;", ['x , x b', 'b']), ("@@whitespace :: None\nstart = /[ \\t]*/%{ /\\w*/ } $ ;", ['ab cd', 'ab', ' ']),
+    ("start = ([','])%{ ['a'] }+ $ ;", ['a , a', 'a a']), ("start = {['a']} {['a']}+ 'b' ;", ['a a b', 'b']),
     # a constant that fails inside an optional / closure / choice within a called rule (the failure crosses frames that only
     # unwind on parse failures), followed by more input
     ("start = u:'u' {a}* v:'v' $ ;\na = x:'x' [ 'q' y:`1/0` ] ;", ['u x x q v', 'u x q v', 'u x v', 'u v', 'u x q']),
